@@ -180,7 +180,8 @@ static void mut_line(const char *r, int is_destroy)
 	if (is_destroy) {
 		size_t i;
 		for (i = 0; i < rel.n; i++) kl_add(&ord, rel.v[i]);
-		qsort(rel.v, rel.n, sizeof(long long), cmp_ll);
+		if (rel.n)
+			qsort(rel.v, rel.n, sizeof(long long), cmp_ll);
 	}
 	size_t n = t_size(tree.root);
 	aatree_walk(&tree, AA_WALK_IN_ORDER, collect_cb, &in);
@@ -333,8 +334,24 @@ int main(void)
 			enum AATreeWalkType t = w[1][1] == 'n' ? AA_WALK_IN_ORDER :
 				w[1][1] == 'r' ? AA_WALK_PRE_ORDER : AA_WALK_POST_ORDER;
 			aatree_walk(&tree, t, collect_cb, &l);
-			o_printf("w=");
-			put_keys(&l);
+			if (t == AA_WALK_IN_ORDER) {
+				/* the order of an in-order walk is pinned by the property */
+				o_printf("w=");
+				put_keys(&l);
+			} else {
+				/* pre/post-order: the property pins the set of visited nodes (observable:
+				 * sorted), the order depends on the shape (internal) */
+				struct KL srt = { NULL, 0, 0 };
+				size_t i;
+				for (i = 0; i < l.n; i++) kl_add(&srt, l.v[i]);
+				if (srt.n)
+					qsort(srt.v, srt.n, sizeof(long long), cmp_ll);
+				o_printf("w=");
+				put_keys(&srt);
+				o_printf(" ## ");
+				put_keys(&l);
+				free(srt.v);
+			}
 			emit();
 			free(l.v);
 		} else if (nw == 1 && strcmp(w[0], "destroy") == 0) {
